@@ -33,6 +33,9 @@ def mk(line, st, line_no=1):
     for op in st.history:
         if op[0] == "lang":
             tm.match_Language(Token(GherkinLine("# language: " + op[1] + chr(10), 1), {"line": 1}))
+        elif op[0] == "open":
+            # an earlier document ended inside a doc string opened by this (indented) delimiter line
+            tm.match_DocStringSeparator(Token(GherkinLine(op[1] + chr(10), 1), {"line": 1}))
         elif op[0] == "touch":
             # an earlier document had ordinary lines: every matcher has been asked at least once in the current state
             for k in KINDS:
@@ -253,3 +256,17 @@ def contract_free(line: str, act: int) -> bool:
             n_true += 1
     out, f, after = run_match("Other", line, st)
     return n_true <= 1 and out == ("ret", True)
+
+
+HISTORY = param("history", [])
+
+
+def line_after_history(ind: str, rest: str) -> bool:
+    """
+    pre: len(ind) <= MAXIND and _blank(ind)
+    pre: len(rest) <= MAXLEN and chr(10) not in rest
+    post: _
+    """
+    # C15: the matcher has a history (dialect switches, a doc string left open, ...) ending with the start of a new parse
+    st = State(default=DIALECT, history=[tuple(op) for op in HISTORY])
+    return agrees(KIND, ind + HEAD + rest + TERM, st)
